@@ -132,24 +132,29 @@ class C05i(Monitor):
 
 
 class C05t(Monitor):
-    """the mains valve is never open for longer than the safety limit (6 h in low; 2 h in fill): observed on the pin, whatever
-    the tank controller believes — a poll chain that died silently with the valve open is counted like any other overrun"""
+    """the mains valve is never open for longer than the safety limit of the phase the tank controller is in (2 h in fill, 6 h in
+    low): observed on the pin, whatever the tank controller believes — a poll chain that died silently with the valve open is
+    counted like any other overrun"""
     pid = "C05"
 
     def attach(self, r):
         self.since = None
+        self.st = None
 
     def settled(self, r):
         s = r.sys
         now = r.world.now_us
+        st = s.state("Tank") if _alive(r, "Tank") else "DEAD"
         if s.pin_on("main"):
-            if getattr(self, "since", None) is None:
-                self.since = now
-            elif now - self.since > (6 * 3600 + 60) * 1_000_000:
-                st = s.state("Tank") if _alive(r, "Tank") else "DEAD"
-                r.report("C05", "main-valve-open-too-long:" + st, f"the mains valve has been open for {(now - self.since) / 3.6e9:.2f} h (limit 6 h in low, 2 h in fill); tank controller: {st}")
+            if getattr(self, "since", None) is None or st != getattr(self, "st", None):
+                self.since, self.st = now, st
+            else:
+                limit = (2 if st == "fill" else 6) * 3600 + 60
+                if now - self.since > limit * 1_000_000:
+                    r.report("C05", "main-valve-open-too-long:" + st, f"the mains valve has been open for {(now - self.since) / 3.6e9:.2f} h with the tank controller in {st} (limit {2 if st == 'fill' else 6} h)")
         else:
             self.since = None
+            self.st = None
 
 
 class C06a(Monitor):
